@@ -903,6 +903,8 @@ func (s *Server) RemoteHello(
 	export, schema, _ := s.Source.Export()
 	s.tracer.calcTrackedStates(export.StateNames)
 	s.tracer.active = true
+	// the client starts from this snapshot, older ones are void
+	s.tracer.dataQueue = nil
 	statesCount := len(export.StateNames)
 	tTrackedSum := export.Time.Filter(s.tracer.trackedStateIdxs).Sum(nil)
 
